@@ -507,12 +507,18 @@ def minmax_arguments():
             ('min(x, 2x+1)', lambda: mmin(x, aff()), 'v',
              lambda a, b: builtins.min(a, 2 * a + 1))]
     # a single list or tuple of arguments is the same as the arguments
-    for nm, mk in (('max([x, y, 2.0])', lambda: mmax([x, y, 2.0])),
-                   ('max((x, y, 2.0))', lambda: mmax((x, y, 2.0)))):
+    for nm, mk, red in (('max([x, y, 2.0])', lambda: mmax([x, y, 2.0]),
+                         builtins.max),
+                        ('max((x, y, 2.0))', lambda: mmax((x, y, 2.0)),
+                         builtins.max),
+                        ('min([x, y, 2.0])', lambda: mmin([x, y, 2.0]),
+                         builtins.min),
+                        ('min((x, y, 2.0))', lambda: mmin((x, y, 2.0)),
+                         builtins.min)):
         count['minmax'] = count.get('minmax', 0) + 1
         try:
             f = mk()
-            want = [builtins.max(a, b, 2.0) for a, b in zip(
+            want = [red(a, b, 2.0) for a, b in zip(
                 list(x.value), list(y.value))]
             if any(abs(u - v_) > 1e-12 for u, v_ in zip(list(f.value()),
                                                         want)):
